@@ -244,3 +244,389 @@ macro_rules! int_pow {
 }
 
 include!("ops_list.rs");
+
+// =====================================================================================
+// Unary operators
+// =====================================================================================
+
+/// C01 obligation for a unary application on an operand type the checker accepts.
+pub fn check_unary_class(oi: usize, ti: usize, unsigned_operand: bool, r: &Result<Value, RuntimeError>) {
+    #[cfg(feature = "c01")]
+    if ACCEPT_UN[oi][ti] {
+        if let Err(e) = r {
+            if static_class(e) {
+                if oi == 0 && unsigned_operand {
+                    assert!(false, "C01: KF-neg-unsigned: unary minus on an unsigned operand is accepted by the checker and yields TypeMismatch");
+                } else {
+                    assert!(false, "C01: static-class error on a unary operand type the checker accepts");
+                }
+            }
+        }
+    }
+}
+
+macro_rules! neg_signed {
+    ($v:ident, $t:ty, $ti:expr) => {{
+        let x: $t = kani::any();
+        let r = apply_unary(UnaryOp::Neg, Value::$v(x));
+        check_unary_class(0, $ti, false, &r);
+        #[cfg(feature = "c02")]
+        {
+            if x == <$t>::MIN {
+                assert!(matches!(&r, Err(RuntimeError::Overflow)), "C02: -MIN must fault with Overflow");
+            } else {
+                assert!(matches!(&r, Ok(Value::$v(y)) if *y == -x), "C02: unary minus differs from exact negation");
+            }
+        }
+        kani::cover!(x == <$t>::MIN);
+        kani::cover!(x == 5);
+        std::mem::forget(r);
+    }};
+}
+
+// @verif prop=C01,C02 kernel=K1 tiers=quick,thorough timeout=900 unwind=1
+// @verif what=unary minus on SINT/INT/DINT/LINT: never panics, -MIN faults with Overflow, otherwise exact negation with the operand's type
+// @verif fns=eval::ops::apply_unary
+// @verif bound=every payload of the four signed integer types
+#[kani::proof]
+fn ops_unary_neg_signed() {
+    let k: u8 = kani::any();
+    match k % 4 {
+        0 => neg_signed!(SInt, i8, 1),
+        1 => neg_signed!(Int, i16, 2),
+        2 => neg_signed!(DInt, i32, 3),
+        _ => neg_signed!(LInt, i64, 4),
+    }
+}
+
+macro_rules! neg_unsigned {
+    ($v:ident, $t:ty, $ti:expr) => {{
+        let x: $t = kani::any();
+        let r = apply_unary(UnaryOp::Neg, Value::$v(x));
+        kani::cover!(x == 0);
+        kani::cover!(x == 7);
+        check_unary_class(0, $ti, true, &r);
+        std::mem::forget(r);
+    }};
+}
+
+// @verif prop=C01 kernel=K1 tiers=quick,thorough timeout=900 unwind=1
+// @verif what=unary minus on USINT/UINT/UDINT/ULINT (accepted by the checker as "numeric"): no panic, no static-class error
+// @verif fns=eval::ops::apply_unary
+// @verif bound=every payload of the four unsigned integer types
+#[kani::proof]
+fn ops_unary_neg_unsigned() {
+    let k: u8 = kani::any();
+    match k % 4 {
+        0 => neg_unsigned!(USInt, u8, 5),
+        1 => neg_unsigned!(UInt, u16, 6),
+        2 => neg_unsigned!(UDInt, u32, 7),
+        _ => neg_unsigned!(ULInt, u64, 8),
+    }
+}
+
+// @verif prop=C01,C02 kernel=K1 tiers=quick,thorough timeout=900 unwind=1
+// @verif what=unary minus on REAL/LREAL flips exactly the sign bit; NOT on BOOL is logical negation; unary plus returns its operand
+// @verif fns=eval::ops::apply_unary
+// @verif bound=every bit pattern of REAL, LREAL; both BOOL values; unary plus on INT and LREAL
+#[kani::proof]
+fn ops_unary_real_bool_pos() {
+    let k: u8 = kani::any();
+    match k % 5 {
+        0 => {
+            let b: u32 = kani::any();
+            let r = apply_unary(UnaryOp::Neg, Value::Real(f32::from_bits(b)));
+            check_unary_class(0, 9, false, &r);
+            #[cfg(feature = "c02")]
+            assert!(matches!(&r, Ok(Value::Real(y)) if y.to_bits() == b ^ 0x8000_0000), "C02: REAL negation is not a sign flip");
+            std::mem::forget(r);
+        }
+        1 => {
+            let b: u64 = kani::any();
+            let r = apply_unary(UnaryOp::Neg, Value::LReal(f64::from_bits(b)));
+            check_unary_class(0, 10, false, &r);
+            #[cfg(feature = "c02")]
+            assert!(matches!(&r, Ok(Value::LReal(y)) if y.to_bits() == b ^ 0x8000_0000_0000_0000), "C02: LREAL negation is not a sign flip");
+            std::mem::forget(r);
+        }
+        2 => {
+            let x: bool = kani::any();
+            let r = apply_unary(UnaryOp::Not, Value::Bool(x));
+            check_unary_class(1, 0, false, &r);
+            #[cfg(feature = "c02")]
+            assert!(matches!(&r, Ok(Value::Bool(y)) if *y == !x), "C02: NOT on BOOL is not logical negation");
+            std::mem::forget(r);
+        }
+        3 => {
+            let x: i16 = kani::any();
+            let r = apply_unary(UnaryOp::Pos, Value::Int(x));
+            #[cfg(feature = "c02")]
+            assert!(matches!(&r, Ok(Value::Int(y)) if *y == x), "C02: unary plus changed its operand");
+            std::mem::forget(r);
+        }
+        _ => {
+            let b: u64 = kani::any();
+            let r = apply_unary(UnaryOp::Pos, Value::LReal(f64::from_bits(b)));
+            #[cfg(feature = "c02")]
+            assert!(matches!(&r, Ok(Value::LReal(y)) if y.to_bits() == b), "C02: unary plus changed its operand");
+            std::mem::forget(r);
+        }
+    }
+    kani::cover!(k % 5 == 0);
+    kani::cover!(k % 5 == 2);
+}
+
+// =====================================================================================
+// Comparisons and equality on the non-numeric elementary types (same type on both sides)
+// =====================================================================================
+
+pub fn check_cmp(k: u8, ti: usize, ord: core::cmp::Ordering, r: &Result<Value, RuntimeError>) {
+    use core::cmp::Ordering::*;
+    let expect = match k {
+        9 => ord == Equal,
+        10 => ord != Equal,
+        11 => ord == Less,
+        12 => ord != Greater,
+        13 => ord == Greater,
+        _ => ord != Less,
+    };
+    #[cfg(feature = "c01")]
+    if ACCEPT_BIN[k as usize][ti][ti] {
+        if let Err(e) = r {
+            if static_class(e) {
+                assert!(false, "C01: static-class error on a comparison the checker accepts");
+            }
+        }
+    }
+    #[cfg(feature = "c02")]
+    if ACCEPT_BIN[k as usize][ti][ti] {
+        assert!(matches!(r, Ok(Value::Bool(g)) if *g == expect), "C02: comparison result differs from the natural order of the type");
+    }
+    kani::cover!(expect);
+    kani::cover!(!expect);
+}
+
+macro_rules! cmp_same {
+    ($name:ident, $ti:expr, $t:ty, |$x:ident| $mk:expr) => {
+        #[kani::proof]
+        fn $name() {
+            let a: $t = kani::any();
+            let b: $t = kani::any();
+            let ord = a.cmp(&b);
+            let profile = DateTimeProfile::default();
+            let k: u8 = kani::any();
+            macro_rules! go { ($op:ident, $kk:expr) => {{
+                let l = { let $x = a; $mk };
+                let rr = { let $x = b; $mk };
+                let r = apply_binary(BinaryOp::$op, l, rr, &profile);
+                check_cmp($kk, $ti, ord, &r);
+                std::mem::forget(r);
+            }}; }
+            match k {
+                9 => go!(Eq, 9), 10 => go!(Ne, 10), 11 => go!(Lt, 11), 12 => go!(Le, 12), 13 => go!(Gt, 13), _ => go!(Ge, 14),
+            }
+        }
+    };
+}
+
+use trust_runtime::value::{DateTimeValue, DateValue, Duration, LDateTimeValue, LDateValue, LTimeOfDayValue, TimeOfDayValue};
+
+macro_rules! cmp_entry {
+    ($name:ident, $tiers:expr, $ti:expr, $t:ty, |$x:ident| $mk:expr) => { cmp_same!($name, $ti, $t, |$x| $mk); };
+}
+
+// @verif prop=C01,C02 kernel=K1 tiers=quick,thorough timeout=900 unwind=1
+// @verif what=apply_binary = <> < <= > >= on BOOL x BOOL vs natural order (FALSE < TRUE)
+// @verif fns=eval::ops::{apply_binary,numeric_eq,non_numeric_cmp,ord_cmp}
+// @verif bound=all operand values, six comparison operators (concrete per call site)
+cmp_same!(ops_cmp_bool, 0, bool, |x| Value::Bool(x));
+// @verif prop=C01,C02 kernel=K1 tiers=thorough timeout=900 unwind=1
+// @verif what=apply_binary comparisons on BYTE x BYTE vs unsigned order
+// @verif fns=eval::ops::{apply_binary,numeric_eq,non_numeric_cmp,ord_cmp}
+// @verif bound=all operand values, six comparison operators
+cmp_same!(ops_cmp_byte, 11, u8, |x| Value::Byte(x));
+// @verif prop=C01,C02 kernel=K1 tiers=quick,thorough timeout=900 unwind=1
+// @verif what=apply_binary comparisons on WORD x WORD vs unsigned order
+// @verif fns=eval::ops::{apply_binary,numeric_eq,non_numeric_cmp,ord_cmp}
+// @verif bound=all operand values, six comparison operators
+cmp_same!(ops_cmp_word, 12, u16, |x| Value::Word(x));
+// @verif prop=C01,C02 kernel=K1 tiers=thorough timeout=900 unwind=1
+// @verif what=apply_binary comparisons on DWORD x DWORD vs unsigned order
+// @verif fns=eval::ops::{apply_binary,numeric_eq,non_numeric_cmp,ord_cmp}
+// @verif bound=all operand values, six comparison operators
+cmp_same!(ops_cmp_dword, 13, u32, |x| Value::DWord(x));
+// @verif prop=C01,C02 kernel=K1 tiers=thorough timeout=900 unwind=1
+// @verif what=apply_binary comparisons on LWORD x LWORD vs unsigned order
+// @verif fns=eval::ops::{apply_binary,numeric_eq,non_numeric_cmp,ord_cmp}
+// @verif bound=all operand values, six comparison operators
+cmp_same!(ops_cmp_lword, 14, u64, |x| Value::LWord(x));
+// @verif prop=C01,C02 kernel=K1 tiers=quick,thorough timeout=900 unwind=1
+// @verif what=apply_binary comparisons on TIME x TIME vs signed nanosecond order
+// @verif fns=eval::ops::{apply_binary,time_cmp,time_cmp_values,numeric_eq}
+// @verif bound=all i64 nanosecond payloads, six comparison operators
+cmp_same!(ops_cmp_time, 15, i64, |x| Value::Time(Duration::from_nanos(x)));
+// @verif prop=C01,C02 kernel=K1 tiers=thorough timeout=900 unwind=1
+// @verif what=apply_binary comparisons on LTIME x LTIME
+// @verif fns=eval::ops::{apply_binary,time_cmp,time_cmp_values,numeric_eq}
+// @verif bound=all i64 payloads, six comparison operators
+cmp_same!(ops_cmp_ltime, 16, i64, |x| Value::LTime(Duration::from_nanos(x)));
+// @verif prop=C01,C02 kernel=K1 tiers=thorough timeout=900 unwind=1
+// @verif what=apply_binary comparisons on DATE x DATE
+// @verif fns=eval::ops::{apply_binary,time_cmp,time_cmp_values,numeric_eq}
+// @verif bound=all i64 payloads, six comparison operators
+cmp_same!(ops_cmp_date, 17, i64, |x| Value::Date(DateValue::new(x)));
+// @verif prop=C01,C02 kernel=K1 tiers=thorough timeout=900 unwind=1
+// @verif what=apply_binary comparisons on LDATE x LDATE
+// @verif fns=eval::ops::{apply_binary,time_cmp,time_cmp_values,numeric_eq}
+// @verif bound=all i64 payloads, six comparison operators
+cmp_same!(ops_cmp_ldate, 18, i64, |x| Value::LDate(LDateValue::new(x)));
+// @verif prop=C01,C02 kernel=K1 tiers=thorough timeout=900 unwind=1
+// @verif what=apply_binary comparisons on TOD x TOD
+// @verif fns=eval::ops::{apply_binary,time_cmp,time_cmp_values,numeric_eq}
+// @verif bound=all i64 payloads, six comparison operators
+cmp_same!(ops_cmp_tod, 19, i64, |x| Value::Tod(TimeOfDayValue::new(x)));
+// @verif prop=C01,C02 kernel=K1 tiers=thorough timeout=900 unwind=1
+// @verif what=apply_binary comparisons on LTOD x LTOD
+// @verif fns=eval::ops::{apply_binary,time_cmp,time_cmp_values,numeric_eq}
+// @verif bound=all i64 payloads, six comparison operators
+cmp_same!(ops_cmp_ltod, 20, i64, |x| Value::LTod(LTimeOfDayValue::new(x)));
+// @verif prop=C01,C02 kernel=K1 tiers=quick,thorough timeout=900 unwind=1
+// @verif what=apply_binary comparisons on DT x DT
+// @verif fns=eval::ops::{apply_binary,time_cmp,time_cmp_values,numeric_eq}
+// @verif bound=all i64 payloads, six comparison operators
+cmp_same!(ops_cmp_dt, 21, i64, |x| Value::Dt(DateTimeValue::new(x)));
+// @verif prop=C01,C02 kernel=K1 tiers=thorough timeout=900 unwind=1
+// @verif what=apply_binary comparisons on LDT x LDT
+// @verif fns=eval::ops::{apply_binary,time_cmp,time_cmp_values,numeric_eq}
+// @verif bound=all i64 payloads, six comparison operators
+cmp_same!(ops_cmp_ldt, 22, i64, |x| Value::Ldt(LDateTimeValue::new(x)));
+// @verif prop=C01,C02 kernel=K1 tiers=quick,thorough timeout=900 unwind=1
+// @verif what=apply_binary comparisons on CHAR x CHAR
+// @verif fns=eval::ops::{apply_binary,numeric_eq,non_numeric_cmp,ord_cmp}
+// @verif bound=all u8 payloads, six comparison operators
+cmp_same!(ops_cmp_char, 25, u8, |x| Value::Char(x));
+// @verif prop=C01,C02 kernel=K1 tiers=thorough timeout=900 unwind=1
+// @verif what=apply_binary comparisons on WCHAR x WCHAR
+// @verif fns=eval::ops::{apply_binary,numeric_eq,non_numeric_cmp,ord_cmp}
+// @verif bound=all u16 payloads, six comparison operators
+cmp_same!(ops_cmp_wchar, 26, u16, |x| Value::WChar(x));
+
+// @verif prop=C01,C02 kernel=K1 tiers=quick,thorough timeout=900 unwind=1
+// @verif what=AND OR XOR on BOOL x BOOL equal the truth tables
+// @verif fns=eval::ops::{apply_binary,logical_or_bitwise}
+// @verif bound=all four operand combinations, three operators
+#[kani::proof]
+fn ops_logic_bool() {
+    let a: bool = kani::any();
+    let b: bool = kani::any();
+    let profile = DateTimeProfile::default();
+    let k: u8 = kani::any();
+    macro_rules! go { ($op:ident, $kk:expr, $e:expr) => {{
+        let r = apply_binary(BinaryOp::$op, Value::Bool(a), Value::Bool(b), &profile);
+        #[cfg(feature = "c01")]
+        if ACCEPT_BIN[$kk][0][0] { if let Err(e) = &r { assert!(!static_class(e), "C01: static-class error on BOOL logic the checker accepts"); } }
+        #[cfg(feature = "c02")]
+        assert!(matches!(&r, Ok(Value::Bool(g)) if *g == $e), "C02: BOOL logic differs from the truth table");
+        std::mem::forget(r);
+    }}; }
+    match k % 3 { 0 => go!(And, 6, a && b), 1 => go!(Or, 7, a || b), _ => go!(Xor, 8, a != b) }
+    kani::cover!(a && !b && k % 3 == 2);
+    kani::cover!(k % 3 == 0);
+}
+
+// =====================================================================================
+// REAL / LREAL operands. Reference: compute in f64, round once to the target type, fault with
+// Overflow when the result is not finite IN THE TARGET TYPE, DivisionByZero on a zero divisor.
+// Only + - and the comparisons are in the claim (float * / ** are outside, DESIGN C02).
+// =====================================================================================
+
+/// ti: 9 = REAL target, 10 = LREAL target
+pub fn check_real(k: u8, tl: usize, tr: usize, a: f64, b: f64, r: &Result<Value, RuntimeError>) {
+    let target_lreal = tl == 10 || tr == 10;
+    #[cfg(feature = "c01")]
+    if ACCEPT_BIN[k as usize][tl][tr] {
+        if let Err(e) = r {
+            if static_class(e) {
+                if k == 4 {
+                    assert!(false, "C01: KF-real-mod: MOD on REAL/LREAL operands is accepted by the checker and yields TypeMismatch");
+                } else {
+                    assert!(false, "C01: static-class error on real operands the checker accepts");
+                }
+            }
+        }
+    }
+    #[cfg(feature = "c02")]
+    {
+        if k == 0 || k == 1 {
+            let exact = if k == 0 { a + b } else { a - b };
+            if target_lreal {
+                if exact.is_finite() {
+                    assert!(matches!(r, Ok(Value::LReal(g)) if g.to_bits() == exact.to_bits()), "C02: LREAL +/- differs from IEEE double arithmetic");
+                } else {
+                    assert!(matches!(r, Err(RuntimeError::Overflow)), "C02: non-finite LREAL result must fault with Overflow");
+                }
+            } else {
+                let narrowed = exact as f32;
+                if narrowed.is_finite() {
+                    assert!(matches!(r, Ok(Value::Real(g)) if g.to_bits() == narrowed.to_bits()), "C02: REAL +/- differs from correctly rounded single arithmetic");
+                } else {
+                    assert!(matches!(r, Err(RuntimeError::Overflow)), "C02: REAL result that is not finite in REAL must fault with Overflow");
+                }
+            }
+        } else if k >= 9 {
+            let expect = match k { 9 => a == b, 10 => a != b, 11 => a < b, 12 => a <= b, 13 => a > b, _ => a >= b };
+            assert!(matches!(r, Ok(Value::Bool(g)) if *g == expect), "C02: real comparison differs from IEEE comparison");
+        }
+    }
+}
+
+macro_rules! real_pair {
+    ($name:ident, $li:expr, $lb:ty, |$xl:ident| $mkl:expr, |$fl:ident| $tol:expr, $ri:expr, $rb:ty, |$xr:ident| $mkr:expr, |$fr:ident| $tor:expr) => {
+        #[kani::proof]
+        fn $name() {
+            let ab: $lb = kani::any();
+            let bb: $rb = kani::any();
+            let af: f64 = { let $fl = ab; $tol };
+            let bf: f64 = { let $fr = bb; $tor };
+            let profile = DateTimeProfile::default();
+            let k: u8 = kani::any();
+            macro_rules! go { ($op:ident, $kk:expr) => {{
+                let l = { let $xl = ab; $mkl };
+                let rr = { let $xr = bb; $mkr };
+                let r = apply_binary(BinaryOp::$op, l, rr, &profile);
+                check_real($kk, $li, $ri, af, bf, &r);
+                std::mem::forget(r);
+            }}; }
+            match k {
+                0 => go!(Add, 0), 1 => go!(Sub, 1), 4 => go!(Mod, 4),
+                9 => go!(Eq, 9), 10 => go!(Ne, 10), 11 => go!(Lt, 11), 12 => go!(Le, 12), 13 => go!(Gt, 13), _ => go!(Ge, 14),
+            }
+            kani::cover!(k == 0 && af.is_finite() && bf.is_finite() && !(af + bf).is_finite());
+            kani::cover!(k == 11 && af < bf);
+        }
+    };
+}
+
+// @verif prop=C01,C02 kernel=K1 tiers=quick,thorough timeout=1500 unwind=1
+// @verif what=apply_binary REAL x REAL: + - (correctly rounded single result, Overflow when not finite in REAL), MOD (class only), six comparisons (IEEE, NaN unordered)
+// @verif fns=eval::ops::{apply_binary,numeric_arith,numeric_cmp,numeric_eq}, numeric::to_f64
+// @verif bound=every pair of f32 bit patterns incl. NaN, infinities, subnormals; operator concrete per call site
+real_pair!(ops_real_real, 9, u32, |x| Value::Real(f32::from_bits(x)), |x| f32::from_bits(x) as f64, 9, u32, |x| Value::Real(f32::from_bits(x)), |x| f32::from_bits(x) as f64);
+
+// @verif prop=C01,C02 kernel=K1 tiers=quick,thorough timeout=1500 unwind=1
+// @verif what=apply_binary LREAL x LREAL: + - (IEEE double, Overflow when not finite), MOD (class only), six comparisons
+// @verif fns=eval::ops::{apply_binary,numeric_arith,numeric_cmp,numeric_eq}, numeric::to_f64
+// @verif bound=every pair of f64 bit patterns; operator concrete per call site
+real_pair!(ops_lreal_lreal, 10, u64, |x| Value::LReal(f64::from_bits(x)), |x| f64::from_bits(x), 10, u64, |x| Value::LReal(f64::from_bits(x)), |x| f64::from_bits(x));
+
+// @verif prop=C01,C02 kernel=K1 tiers=thorough timeout=1500 unwind=1
+// @verif what=apply_binary DINT x REAL: integer operand promoted (exactly, through f64), result REAL
+// @verif fns=eval::ops::{apply_binary,numeric_arith,numeric_cmp,numeric_eq}, numeric::to_f64
+// @verif bound=every i32 and every f32 bit pattern; operator concrete per call site
+real_pair!(ops_dint_real, 3, i32, |x| Value::DInt(x), |x| x as f64, 9, u32, |x| Value::Real(f32::from_bits(x)), |x| f32::from_bits(x) as f64);
+
+// @verif prop=C01,C02 kernel=K1 tiers=thorough timeout=1500 unwind=1
+// @verif what=apply_binary REAL x LREAL: result LREAL
+// @verif fns=eval::ops::{apply_binary,numeric_arith,numeric_cmp,numeric_eq}, numeric::to_f64
+// @verif bound=every f32 and f64 bit pattern; operator concrete per call site
+real_pair!(ops_real_lreal, 9, u32, |x| Value::Real(f32::from_bits(x)), |x| f32::from_bits(x) as f64, 10, u64, |x| Value::LReal(f64::from_bits(x)), |x| f64::from_bits(x));
